@@ -83,6 +83,28 @@ func (sp *ServiceProvider) ValidatePostSignature(authRequest string) error {
 	return signature.ValidatePost(certs, doc.Root())
 }
 
+// ValidateAttributeQuerySignature validates the enveloped signature of the attribute query in the SOAP envelope.
+// The envelope has to contain exactly one AttributeQuery element, as child of the SOAP body,
+// so that the validated element is the one which gets decoded and answered.
+func (sp *ServiceProvider) ValidateAttributeQuerySignature(soapRequest string) error {
+	doc := etree.NewDocument()
+	if err := doc.ReadFromBytes([]byte(soapRequest)); err != nil {
+		return err
+	}
+
+	queries := doc.FindElements("//AttributeQuery")
+	if len(queries) != 1 || doc.Root().FindElement("./Body/AttributeQuery") != queries[0] {
+		return fmt.Errorf("error while parsing request")
+	}
+
+	certs, err := getSigningCertsFromMetadata(sp.Metadata)
+	if err != nil {
+		return err
+	}
+
+	return signature.ValidatePost(certs, queries[0])
+}
+
 func (sp *ServiceProvider) ValidateRedirectSignature(request, relayState, sigAlg, expectedSig string) error {
 	if sp.signerPublicKey == nil {
 		return fmt.Errorf("error can not validate signature if no certificate is present for this service provider")
